@@ -11,6 +11,7 @@ package logic
 import (
 	"github.com/q191201771/lal/pkg/gb28181"
 	"github.com/q191201771/naza/pkg/nazalog"
+	"strings"
 	"time"
 
 	"github.com/q191201771/lal/pkg/base"
@@ -387,9 +388,20 @@ func (group *Group) addIn() {
 	}
 
 	group.startPushIfNeeded()
+
+	// hls和录制会用流名称拼接目录名、文件名，流名称来自客户端，不能让它指向配置的输出目录之外
+	if !isStreamNameSafeAsFileName(group.streamName) {
+		Log.Warnf("[%s] stream name is not safe as file name, hls and record are skipped. streamName=%s", group.UniqueKey, group.streamName)
+		return
+	}
 	group.startHlsIfNeeded()
 	group.startRecordFlvIfNeeded(now)
 	group.startRecordMpegtsIfNeeded(now)
+}
+
+// isStreamNameSafeAsFileName 流名称是否可以安全的作为目录名、文件名的一部分
+func isStreamNameSafeAsFileName(streamName string) bool {
+	return streamName != "." && streamName != ".." && !strings.ContainsAny(streamName, "/\\")
 }
 
 // delIn 有pub或pull的输入型session离开时，需要调用该函数
